@@ -277,7 +277,7 @@ def clean_work(prop):
 
 # --------------------------------------------------------------------------- probe driver
 
-def run_probe(check, tier, seed, extra=(), shards=1, cpu_s=3600, corpus=False):
+def run_probe(check, tier, seed, extra=(), shards=1, cpu_s=3600, corpus=False, cwd=None):
     """run the probe's built-in check (optionally sharded over processes) and merge the reports"""
     args_common = [PROBE, check, "--tier", tier, "--seed", str(seed)] + list(extra)
     if corpus:
@@ -287,7 +287,7 @@ def run_probe(check, tier, seed, extra=(), shards=1, cpu_s=3600, corpus=False):
         a = list(args_common)
         if shards > 1:
             a += ["--shard", str(i), "--shards", str(shards)]
-        r = run_proc(a, cpu_s=cpu_s, wall_s=cpu_s * 2, mem_gb=24)
+        r = run_proc(a, cpu_s=cpu_s, wall_s=cpu_s * 2, mem_gb=24, cwd=cwd)
         rep = None
         for line in r.out.splitlines():
             if line.startswith("@@REPORT "):
@@ -347,9 +347,15 @@ def match_known(prop, v, known):
         if "key" in f and f["key"] != v.get("key"):
             continue
         s = violation_sig(v)
-        if "sig" in f and f["sig"] == s:
-            return f
-        if "sig_regex" in f and re.search(f["sig_regex"], s):
+        if "sig" in f:
+            if f["sig"] == s:
+                return f
+            continue
+        if "sig_regex" in f:
+            if re.search(f["sig_regex"], s):
+                return f
+            continue
+        if "key" in f:
             return f
     return None
 
